@@ -213,3 +213,6 @@ Theorem rich_count_gen eps tiny huge tf (sq_ steps rr : list R) :
 Proof.
   unfold rich. cbv zeta. cbn [fst snd]. rewrite !firstn_length. unfold conv, corr. rewrite map_length, seq_length. split; reflexivity.
 Qed.
+
+Lemma conv_length_gen eps tiny huge (x v : list R) o : length (conv (OpsR eps tiny huge) x v o) = length x.
+Proof. unfold conv, corr. rewrite map_length, seq_length. reflexivity. Qed.
